@@ -32,6 +32,8 @@ CLASS_D30 = "text-invalid-utf8-accepted"
 CLASS_D31 = "text-escape-of-non-scalar-accepted"
 
 MALFORMED = [
+    # a symbol identifier $n whose n no table can define
+    b"$9223372036854775808", b"$99999999999999999999", b"{$9223372036854775808:1}", b"$18446744073709551616::1", b"[$9223372036854775808]",
     # digit grouping, leading zeros, radix forms
     b"1__0", b"1_", b"0x_1", b"0x1_", b"0x", b"0b", b"0b2", b"0b1_", b"0b_1", b"1_.0", b"1._0", b"1.0_", b"1.0__1", b"007", b"00", b"-007",
     b"-_1", b"00.5", b"01e0", b"1e", b"1d", b"1e+", b"1d-", b"1e5_0", b"1d5_0", b"1e_5", b"1.5e1_0", b"--1", b"1.2.3", b"1e1.5", b"+1", b"1x",
@@ -83,6 +85,9 @@ def strip_comments(text):
     return re.sub(rb"/\*.*?\*/|//[^\n\r]*", b" ", text, flags=re.S)
 
 
+CLASS_SIDBIG = "text-sid-beyond-int64-read-as-text-symbol"
+
+
 def classify_text(text):
     """heuristic attribution of an accepted malformed text to a known class, most specific trigger first"""
     try:
@@ -107,6 +112,9 @@ def classify_text(text):
         return CLASS_DOT
     if b"/*/" in text:
         return CLASS_CMT
+    for m in re.finditer(rb"(^|[\s\[\](){},:])\$([0-9]{19,})(?![A-Za-z0-9_$])", strip_comments(text)):
+        if int(m.group(2)) > (1 << 63) - 1:
+            return CLASS_SIDBIG
     return None
 
 
